@@ -7,7 +7,9 @@
 // state-changing step `verifyToken` is pre-executed against the committed state for every
 // (contract, caller, function) with the caller's right key and for a sample of key-control
 // variants, and its answer must equal the model's answer in both directions.  Every second
-// history also plays one scripted multi-step scenario (scenario.go) inside its random walk.
+// history also plays one scripted multi-step scenario (scenario.go) inside its random walk,
+// every fourth one the phantom-assignment scenario S5 (state changes that are only pre-executed
+// or belong to a failed transaction).
 package main
 
 import (
@@ -143,8 +145,9 @@ type hist struct {
 	dead   bool
 	broken bool // a block commit failed or panicked: do not reuse the ledger
 
-	queue []func() bool // scripted scenario steps still to play (scenario.go)
-	focus []focusRef    // (contract, caller) pairs probed on every function while a scenario plays
+	pnonce uint32        // nonce source of gasTx (scenario.go)
+	queue  []func() bool // scripted scenario steps still to play (scenario.go)
+	focus  []focusRef    // (contract, caller) pairs probed on every function while a scenario plays
 }
 
 type focusRef struct {
@@ -1194,8 +1197,8 @@ func runHistory(r *vf.Run, pool *iddrv.Pool, idx int, rng *vf.RNG, nSteps int) {
 	// one scripted scenario (scenario.go) is played at a seeded point of the walk of every second
 	// history; its steps do not count as steps of the walk
 	scenAt := h.rng.Range(0, nSteps*2/3)
-	if idx%2 != 0 {
-		scenAt = -1 // every second history plays one
+	if idx%2 != 0 && idx%4 != 1 {
+		scenAt = -1 // every second history plays one of S1..S4, every fourth plays S5
 	}
 	for n := 0; n < nSteps && !h.dead; {
 		if len(h.queue) > 0 {
@@ -1209,7 +1212,11 @@ func runHistory(r *vf.Run, pool *iddrv.Pool, idx int, rng *vf.RNG, nSteps int) {
 		}
 		if n == scenAt {
 			scenAt = -1
-			h.enqueueScenario(idx / 2)
+			if idx%2 == 0 {
+				h.enqueueScenario(idx / 2)
+			} else {
+				h.enqueueS5(idx / 4)
+			}
 			continue
 		}
 		h.stepRandom()
@@ -1229,7 +1236,7 @@ func runHistory(r *vf.Run, pool *iddrv.Pool, idx int, rng *vf.RNG, nSteps int) {
 
 func main() {
 	r := vf.NewRun("C41", "exploration",
-		"seeded histories of ~30 state-changing steps over 4 registered ONT IDs and 2 contracts (one addressed by its init script, one deployed NeoVM proxy): initContractAdmin, transfer, assignFuncsToRole, assignOntIDsToRole, delegate (shapes: right, delegate-of-delegate, level 0/2/3+, to-already-holds, period 0/1/overflow/2^32), withdraw (root / non-root / none), ontid key add/revoke/ID revoke, time steps landing the clock exactly on expiry and expiry+1; signer classes right / extra / no-signature / wrong keyNo / revoked key / empty; after every step verifyToken is pre-executed for all (contract, caller, fn) with the caller's key plus 5 key-control variants, boundary blocks also carry verifyToken transactions; every second history also plays, at a seeded point of its walk, one scripted multi-step scenario generated against the state it meets (S1: a second delegator takes over a delegate whose first delegation expired, then withdrawals by the new, the former and a non-delegator, re-delegation; S2: two delegators on one delegate while the first is live / at the expiry second / after a withdrawal; S3: renewal by the same delegator while live / at expiry / after expiry / after withdrawal; S4: delegate-of-delegate chains with the middle live, withdrawn or expired, then a proper delegation that the chain members cannot withdraw; family and main variant are stratified over the history index); a case = one verifyToken evaluation, distinct by (model reason, variant, answer, mode, contract)")
+		"seeded histories of ~30 state-changing steps over 4 registered ONT IDs and 2 contracts (one addressed by its init script, one deployed NeoVM proxy): initContractAdmin, transfer, assignFuncsToRole, assignOntIDsToRole, delegate (shapes: right, delegate-of-delegate, level 0/2/3+, to-already-holds, period 0/1/overflow/2^32), withdraw (root / non-root / none), ontid key add/revoke/ID revoke, time steps landing the clock exactly on expiry and expiry+1; signer classes right / extra / no-signature / wrong keyNo / revoked key / empty; after every step verifyToken is pre-executed for all (contract, caller, fn) with the caller's key plus 5 key-control variants, boundary blocks also carry verifyToken transactions; every second history also plays, at a seeded point of its walk, one scripted multi-step scenario generated against the state it meets (S1: a second delegator takes over a delegate whose first delegation expired, then withdrawals by the new, the former and a non-delegator, re-delegation; S2: two delegators on one delegate while the first is live / at the expiry second / after a withdrawal; S3: renewal by the same delegator while live / at expiry / after expiry / after withdrawal; S4: delegate-of-delegate chains with the middle live, withdrawn or expired, then a proper delegation that the chain members cannot withdraw; family and main variant are stratified over the history index); every fourth history plays S5 instead, phantom state changes: with a direct holder, a live delegate and an outsider of a role, assignFuncsToRole of a function nobody has (alone, or followed by verifyToken in the same invoke script) is only pre-executed / mined in a transaction that faults (THROW) or runs out of gas after the calls / mined faulting and followed in the same block by verifyToken transactions, each followed by pre-executed and mined verifyToken probes, then the real assignment; likewise phantom assignOntIDsToRole, delegate (outsider stays out) and withdraw (delegate stays in)); a case = one verifyToken evaluation, distinct by (model reason, variant, answer, mode, contract)")
 	scratch := vf.Scratch("c41")
 	defer os.RemoveAll(scratch)
 	nHist := vf.N(300, 3000)
@@ -1276,6 +1283,19 @@ func main() {
 		"S4/chain:middle-live=false": 10, "S4/chain:middle-withdrawn=false": 5, "S4/chain:middle-at-time==expiry=false": 5, "S4/chain:middle-expired=false": 5,
 		"S4/chain:level-0=false": 3, "S4/chain:level-1=false": 5, "S4/chain:level-2=false": 3, "S4/y-holds-nothing-after-chain-attempt": 20,
 		"S4/y-holds-by-proper-delegation": 10, "S4/y-holds-after-withdraw-by-middle=true": 3, "S4/y-holds-after-withdraw-by-delegator=false": 3,
+		// S5: every phantom (what it calls, how it is kept out of the ledger), each of them also as the first one played
+		"S5/completed": 20, "S5/real-assignment-after-phantoms=true": 20, "S5/holder-and-delegate-have-F-after-real-assignment": 20,
+		"S5/funcs-phantom:assign-funcs:pre-exec": 20, "S5/funcs-phantom:assign-funcs+verify:pre-exec": 20, "S5/funcs-phantom:assign-funcs+verify:mined-throw": 20,
+		"S5/funcs-phantom:assign-funcs+verify:mined-out-of-gas": 20, "S5/funcs-phantom:assign-funcs+verify:mined-throw-then-other-txs": 20,
+		"S5/funcs-phantom-played-first:assign-funcs:pre-exec": 4, "S5/funcs-phantom-played-first:assign-funcs+verify:pre-exec": 4, "S5/funcs-phantom-played-first:assign-funcs+verify:mined-throw": 4,
+		"S5/funcs-phantom-played-first:assign-funcs+verify:mined-out-of-gas": 4, "S5/funcs-phantom-played-first:assign-funcs+verify:mined-throw-then-other-txs": 4,
+		"S5/funcs-phantom:verifyToken-inside-the-transaction=true": 20, "S5/mined-probe=false": 200, "S5/mined-probe=true": 100,
+		"S5/ids-phantom:assign-ids+verify:pre-exec": 5, "S5/ids-phantom:assign-ids+verify:mined-throw": 5, "S5/ids-phantom:assign-ids+verify:mined-out-of-gas": 5,
+		"S5/ids-phantom:delegate+verify:pre-exec": 5, "S5/ids-phantom:delegate+verify:mined-throw": 5, "S5/ids-phantom:delegate+verify:mined-out-of-gas": 5,
+		"S5/ids-phantom:withdraw+verify:pre-exec": 5, "S5/ids-phantom:withdraw+verify:mined-throw": 5, "S5/ids-phantom:withdraw+verify:mined-out-of-gas": 5,
+		"S5/ids-phantom:assign-ids+verify:verifyToken-inside-the-transaction=true": 5, "S5/ids-phantom:delegate+verify:verifyToken-inside-the-transaction=true": 5,
+		"S5/ids-phantom:withdraw+verify:verifyToken-inside-the-transaction=false": 5,
+		"S5/outsider-holds-nothing-after-assign-ids+verify":                       15, "S5/outsider-holds-nothing-after-delegate+verify": 15, "S5/delegate-still-holds-after-withdraw+verify": 15,
 	} {
 		r.Require("scenario/"+k, min)
 	}
